@@ -73,6 +73,11 @@ def leaf_variants(v, wide=False, hint=None, text=False):
             # grammar's token set - no empty value, no separator characters, ASCII only
             cands = [('str:a', 'a'), ('str:upper', v.upper()), ('str:lower', v.lower()),
                      ('str:swapcase', v.swapcase()), ('str:len255', 'x' * 255), ('str:len256', 'x' * 256)]
+            if v:
+                # octets that str.strip() / str.split() / str.isspace() treat as white space but that no text grammar
+                # here uses as a separator (only SP and HTAB are white space in RFC 7230 / 7208 / 8461): the value
+                # travels unquoted and must come back unchanged
+                cands += [('str:ff-end', v + '\x0c'), ('str:vt-start', '\x0b' + v), ('str:us-end', v + '\x1f')]
         else:
             cands = [('str:empty', ''), ('str:a', 'a'), ('str:upper', v.upper()), ('str:lower', v.lower()),
                      ('str:swapcase', v.swapcase()), ('str:space', (v[:1] + ' ' + v[1:]) if v else ' '),
